@@ -4,7 +4,7 @@ from .. import gen, elect
 from ..common import Names, rat, run_impl, exn_name
 
 PROP = "C20"
-LEAN_MODULE = "VK.Props.C20"
+LEAN_MODULE = "VK.Check.C20"
 THEOREMS = [
     "VK.C20_ranking_rule_needs_rankings",
     "VK.C20_stv_rejects",
@@ -15,6 +15,9 @@ THEOREMS = [
     "VK.C20_dictator_seats",
     "VK.C20_gen_init_iff",
     "VK.C20_combine_iff",
+    "VK.kernel_validVector_one",
+    "VK.kernel_validVector_step",
+    "VK.kernel_rating_validator",
 ]
 RULE = ("one stream per documented precondition, each violating exactly that precondition by the smallest margin and "
         "grossly with the offending ballot first / in the middle / last, plus the accepting boundary value: ballot "
